@@ -375,6 +375,11 @@ func (g *gImpl) deadline() string {
 			return "bad-op"
 		}
 	}
+	// Only run the real-time calls when a scheduled Wait() returns: a Wait that spins (an
+	// inconsistent state at rest) would leave a goroutine spinning through the shims forever.
+	if pr := g.probe(); strings.Contains(pr, "wait=spin") {
+		return "hang"
+	}
 	res := make(chan string, 1)
 	go func() {
 		// with count zero the call must return at once, so the deadline is generous (a short one
